@@ -385,8 +385,8 @@ func run(c *runner.Ctx) {
 	}
 	for ki, kd := range kindsT {
 		for k := 2; k <= maxK; k++ {
-			if ki >= 2 && k > 3 {
-				continue
+			if ki >= 2 && k > 3 && ki < 6 {
+				continue // 4 members: string, int32 and the two render-alike kinds
 			}
 			c.Space(fmt.Sprintf("struct/%s/%d-fields", kd.name, k))
 			structCases(c, k, kd)
@@ -394,8 +394,8 @@ func run(c *runner.Ctx) {
 	}
 	for ki, kd := range kindsT {
 		for k := 2; k <= maxK; k++ {
-			if ki >= 2 && k > 3 {
-				continue
+			if ki >= 2 && k > 3 && ki < 6 {
+				continue // 4 members: string, int32 and the two render-alike kinds
 			}
 			c.Space(fmt.Sprintf("map-url/%s/%d-keys", kd.name, k))
 			mapUrlCases(c, k, kd)
